@@ -296,11 +296,15 @@ pub fn dispatch(sub: &str, f: &[&str]) -> String {
         },
         // names <abi|-|?> <canonical> <mangled> <underscore_prefix 0|1>
         "names" => {
-            let r = vh::names_identical(&dec(f[1]), &dec(f[2]), opt(f[0]), f[3] == "1");
+            let e = |x: &str| if x == "%" { String::new() } else { dec(x) };
+            let r = vh::names_identical(&e(f[1]), &e(f[2]), opt(f[0]), f[3] == "1");
             format!("{}", r as u8)
         }
         // triple <target triple>
-        "triple" => format!("{}", vh::triple_prefixes_symbols(&dec(f[0])) as u8),
+        "triple" => format!(
+            "{}",
+            vh::triple_prefixes_symbols(&if f[0] == "%" { String::new() } else { dec(f[0]) }) as u8
+        ),
         "align" => format!(
             "{}",
             vh::align_to(f[0].parse().unwrap(), f[1].parse().unwrap())
